@@ -39,21 +39,28 @@ RULE = (
 ASSUMPTIONS = [
     "user grids contain 0, have relative spacing >= 1e-6 and lie within [1e-3, 30] coalescent units of epoch 0 "
     "(plus the epoch breaks): grids on which every cdf value under/overflows are not generated",
-    "rows are compared after normalisation to max 1 with absolute tolerance 1e-9 (calibration worst 2e-13)",
+    "rows are compared after normalisation to max 1 with absolute tolerance 1e-9 (calibration worst 2e-13 on "
+    "well-conditioned histories) plus the effect, on the interval masses, of the rounding uncertainty of the "
+    "coalescent-scale grid (C17 bounds): with size ratios ~4000 the generation-scale grid returned for integer "
+    "`timepoints` is off by ~3e-13 relative, which a steep epoch change turns into 1e-9 on tau (observed row "
+    "difference 1.6e-9)",
     "returned grid vs user grid: hard bound = rounding bound of the generations->coalescent->generations round "
     "trip (vt.oracle.demography_e.round_trip_bound); bit-for-bit equality is reported separately "
     "(timepoints:not_bit_exact, listed as a known finding)",
+    "approximate_priors=False only; for integer `timepoints` the quantile grid itself is not predicted, only its "
+    "validity (increasing, starts at 0) and the masses on it are judged",
     "scipy.special.ndtr / gammainc, fractions, mpmath, tskit trusted",
 ]
 
 # calibration on the unchanged tree (quick tier, seeds 1-5): worst |row - oracle| 2e-13; worst relative
 # difference between returned and user grid 4.4e-16 (1 epoch), 3e-13 (multi-epoch, size ratio <= 1e5)
 TOL_ROW = 1e-9
+EPS = 2.0 ** -52
 
 
 def budget(tier):
     if tier == "quick":
-        return dict(examples=200, shards=4)
+        return dict(examples=120, shards=4)
     return dict(examples=2000, shards=16)
 
 
@@ -226,8 +233,18 @@ def check(case, ctx):
                                  "grid is converted to coalescent units and back instead of being kept "
                                  f"(max relative difference {rel:.3g})", sizes=sizes, breaks=breaks))
         tau = np.array([float(X.to_coal(Fraction(float(t)))) for t in want])
+        # the code evaluates the cdf at its float image of the user grid: within coal_bound of tau
+        dtau = np.array([X.coal_bound(Fraction(float(t)), K) for t in want])
     else:
+        # the coalescent-scale quantile grid is internal; it is recovered from the returned generation-scale
+        # grid, which the code obtained with to_natural_timescale (error <= nat_bound, C17): map that
+        # uncertainty back to coalescent units with the exact transform
         tau = np.array([float(X.to_coal(Fraction(float(t)))) for t in tp])
+        dtau = np.zeros(len(tp))
+        for i, t in enumerate(tp):
+            tf = Fraction(float(t))
+            nb = Fraction(X.nat_bound(X.to_coal(tf), K))
+            dtau[i] = float(X.to_coal(tf + nb) - X.to_coal(max(Fraction(0), tf - nb)))
 
     # --- container --------------------------------------------------------------
     if sorted(int(u) for u in prior.nonfixed_nodes) != nonsample or len(prior.nonfixed_nodes) != len(nonsample):
@@ -246,6 +263,7 @@ def check(case, ctx):
 
     # --- rows ---------------------------------------------------------------------
     worst = 0.0
+    worst_excess = 0.0
     with mpmath.workdps(30):
         for u in nonsample:
             if u not in spans:
@@ -256,6 +274,9 @@ def check(case, ctx):
             F = cdf(distr, a, b, tau)
             mass = np.concatenate([[0.0], np.diff(F)])
             top = mass.max()
+            # uncertainty of each cdf value from the uncertainty of tau (see above) and of the cdf itself
+            dF = np.abs(cdf(distr, a, b, tau + dtau) - cdf(distr, a, b, np.maximum(tau - dtau, 0.0))) + 64 * EPS
+            dmass = np.concatenate([[0.0], dF[1:] + dF[:-1]])
             row = np.asarray(prior[u], dtype=float)
             if not top > 0:
                 ctx.discard("degenerate_grid_all_mass_zero")
@@ -270,15 +291,18 @@ def check(case, ctx):
             if abs(row.max() - 1.0) > 1e-12:
                 out.append(Violation("row:max_not_1", f"node {u}: largest entry {row.max()!r}"))
                 break
+            tol = TOL_ROW + 2.0 * (dmass + dmass[int(np.argmax(mass))]) / top
             err = float(np.max(np.abs(row - want_row)))
             worst = max(worst, err)
-            if err > TOL_ROW:
-                i = int(np.argmax(np.abs(row - want_row)))
+            worst_excess = max(worst_excess, float(np.max(np.abs(row - want_row) / tol)))
+            if np.any(np.abs(row - want_row) > tol):
+                i = int(np.argmax(np.abs(row - want_row) / tol))
                 out.append(Violation(f"row:mass:{distr}", f"node {u} ({distr} alpha={a!r} beta={b!r}): entry {i} is "
                                      f"{row[i]!r}, interval mass / max mass is {want_row[i]!r} "
                                      f"(tau interval {tau[max(i - 1, 0)]!r}..{tau[i]!r})", node=u))
                 break
     _note(ctx, "worst_row_abs_err", worst)
+    _note(ctx, "worst_row_err_over_tolerance", worst_excess)
     return out
 
 
@@ -292,7 +316,7 @@ def _note(ctx, name, value):
 
 
 def finish(ctx, tier):
-    for name in ("worst_row_abs_err", "worst_rel_diff_returned_vs_user_grid"):
+    for name in ("worst_row_abs_err", "worst_row_err_over_tolerance", "worst_rel_diff_returned_vs_user_grid"):
         v = ctx.extra.get(name)
         if isinstance(v, list) and v:
             ctx.extra[name] = max(v)
